@@ -44,8 +44,9 @@ Definition print_fld (f : fld) : list Z :=
   end.
 
 (* VcfU: a VCF table whose INFO column has the declared type Union[BNPDataClass, str] (VCFEntry built in
-   memory); same file format as Vcf *)
-Inductive fmt := Delim | Vcf | VcfU | Fasta (w : Z) | Fastq.
+   memory); VcfL: a VCF table read lazily from a canonical file and not modified (its records are passed
+   through as the text they were read from — the extraction itself is property C04).  Same file format. *)
+Inductive fmt := Delim | Vcf | VcfU | VcfL | Fasta (w : Z) | Fastq.
 
 (* sequence text in lines of w characters, every line terminated by LF *)
 Fixpoint wrap_fuel (fuel : nat) (w : nat) (s : list Z) : list Z :=
@@ -65,7 +66,7 @@ Definition ser_delim (r : row) : list Z := intercalate [9] (map print_fld r) ++ 
 Definition ser_row (f : fmt) (r : row) : list Z :=
   match f with
   | Delim => ser_delim r
-  | Vcf | VcfU => ser_delim (vcf_shift 1 r)
+  | Vcf | VcfU | VcfL => ser_delim (vcf_shift 1 r)
   | Fasta w => match r with
                | [n; s] => [62] ++ print_fld n ++ [10] ++ wrap w (print_fld s)
                | _ => []
@@ -201,7 +202,7 @@ Definition id_cols_ok (schema : list Z) (rows : list row) : bool :=
 Definition parse_raw (f : fmt) (schema : list Z) (file : list Z) : option (list row) :=
   match f with
   | Delim => all_some (map (parse_line schema) (lines file))
-  | Vcf | VcfU => option_map (map (vcf_shift (-1)))
+  | Vcf | VcfU | VcfL => option_map (map (vcf_shift (-1)))
              (all_some (map (parse_line schema) (drop_comments (lines file))))
   | Fasta _ => parse_fasta None (lines file)
   | Fastq => let ls := lines file in parse_fastq (length ls) ls
@@ -387,6 +388,7 @@ Definition from_data (f : fmt) (rows : list row) : Z * list Z :=
   | Delim => (0, delim_from_data rows)
   | Vcf => (0, delim_from_data (map (vcf_shift 1) rows))
   | VcfU => if union_info_writable then (0, delim_from_data (map (vcf_shift 1) rows)) else (2, [])
+  | VcfL => (0, serialise VcfL rows)      (* buffer.data.ravel(): the canonical source lines *)
   | Fastq => (0, fastq_from_data rows)
   | Fasta w =>
       match fasta_from_data w (map (fun r => match r with
@@ -399,7 +401,7 @@ Definition from_data (f : fmt) (rows : list row) : Z * list Z :=
   end.
 
 (* ---- NpBufferedWriter.write, files._get_buffered_file ---- *)
-Definition has_header (f : fmt) : bool := match f with Delim | Vcf | VcfU => true | _ => false end.
+Definition has_header (f : fmt) : bool := match f with Delim | Vcf | VcfU | VcfL => true | _ => false end.
 (* `self._file_obj.mode != 'ab'`: a GzipFile's mode is an int, never 'ab' — the code as it is *)
 Definition mode_is_ab_pinned (append gz : bool) : bool := append && negb gz.
 Definition mode_is_ab_fixed (append gz : bool) : bool := append.
